@@ -19,7 +19,9 @@ InitP ==
 SelOf(o) == {o.selected[i] : i \in DOMAIN o.selected}
 InfoLastO == \A e \in Entries : pay[e] # "gone" => info[e] = "present"
 RestoreNeverLosesO == LET o == Obs[tid] IN o.cmd = "restore" => \A e \in Entries : pay[e] = "whole" \/ dest[e] = "whole"
-FrameO == LET o == Obs[tid] IN \A e \in Entries \ SelOf(o) : info[e] = "present" /\ pay[e] = "whole" /\ dest[e] = "absent"
+OccOf(o) == {o.occupied[i] : i \in DOMAIN o.occupied}
+FrameO == LET o == Obs[tid] IN \A e \in Entries \ SelOf(o) : info[e] = "present" /\ pay[e] = "whole"
+                                                               /\ dest[e] = (IF e \in OccOf(o) THEN "other" ELSE "absent")
 DoneO == LET o == Obs[tid] IN o.done =>
            /\ \A e \in SelOf(o) : info[e] = "gone" /\ pay[e] = "gone" /\ (o.cmd = "restore" => dest[e] = "whole")
            /\ (o.cmd = "empty" => \A x \in Orphans : pay[x] = "gone")
